@@ -5,7 +5,11 @@ cd "$(dirname "$0")"
 python3 - <<'PY'
 import sys, os, glob
 sys.path.insert(0, 'tools')
-import vlib
+import vlib, kernel_gen, globals_scan
+# generated kernel (Gen/*.v) from /repo's current tree; every check regenerates it again
+print(kernel_gen.regenerate()); print(kernel_gen.regenerate(kernel_gen.CT_FUNCS))
+try: globals_scan.write_gen(globals_scan.scan(os.path.join(vlib.BUILD, 'setup_globals')))
+except Exception as e: print('setup: globals scan failed', e)
 rc, o = vlib.coq_make([], timeout=5400)
 print(o[-3000:])
 if rc != 0:
